@@ -9,7 +9,7 @@ from wesym import bmc
 
 def main():
     t = tier()
-    cfg = {'unwind': 3, 'timeout_ms': 120000, 'chan_pool': 2}
+    cfg = {'unwind': 2, 'unwind_all': 3, 'timeout_ms': 120000, 'chan_pool': 0, 'chan_pool_by_name': {'waiter': 2}}
     res = []
     # notify primitive
     c1 = Check('C16', [MOD + '/internal/notify'], 'internal/notify', ['C16/zz_verif_c16_notify.go'],
@@ -28,16 +28,25 @@ def main():
     j2 = [Job(P2 + 'VerifC16Lifecycle', a, cfg=cfg, max_paths=100000) for a in
           ([(1, 0, 0), (1, 1, 0), (1, 0, 1)] if t == 'quick' else [(1, 0, 0), (1, 1, 0), (1, 0, 1), (2, 0, 0), (1, 2, 0)])]
     res += c2.run_jobs(j2)
+    c2.cleanup()
+    # connectedness manager (root package): status word and notify internals are visible cells, maps pre-populated
+    c3 = Check('C16', [MOD, MOD + '/internal/notify'], '', ['C16/zz_verif_c16_conn.go'],
+               installers=[seqchan.install, bmc.install], prelude_pkgname='weshnet')
+    P3 = MOD + '.'
+    c3.load([P3 + 'VerifC16Connectedness'])
+    cfg3 = {'unwind': 2, 'unwind_all': 2, 'timeout_ms': 120000, 'chan_pool': 0, 'chan_pool_by_name': {'waiter': 1}}
+    res += c3.run_jobs([Job(P3 + 'VerifC16Connectedness', (sc,), cfg=cfg3, max_paths=100000) for sc in (0, 1)])
+    c2 = c3
     finish(c2, res, t,
-           explanation='Schedule-symbolic bounded model checking (DESIGN section 4) of the real internal/notify (getChan, Wait, Broadcast) and '
-                       'pkg/lifecycle Manager (UpdateState, WaitForStateChange): every goroutine body is executed in open mode by the '
+           explanation='Schedule-symbolic bounded model checking (DESIGN section 4) of the real internal/notify (getChan, Wait, Broadcast), '
+                       'pkg/lifecycle Manager (UpdateState, WaitForStateChange) and ConnectednessManager (AssociatePeer, UpdateState, WaitForConnectednessChange, updateStatus): every goroutine body is executed in open mode by the '
                        'interpreter (each mutex/channel/select/context operation and every load/store of a shared scalar or channel-pointer '
                        'cell is a recorded visible operation with a symbolic result); for each tuple of operation sequences ONE formula with '
                        'free who_k / stop variables decides whether a stuck state (a goroutine unfinished, none able to move) or a failed '
                        'assertion is reachable, and that no sequence cut by the unwinding bound can be run to its end.',
-           bounds={'goroutines': '1-2 waiters + 1 updater (+ canceller)', 'unwind': 3, 'channels_made_per_goroutine': 2,
-                   'outside': 'ConnectednessManager and tinder peersCache (maps of dynamically created structs shared between goroutines: not encodable by the '
-                              'scalar/channel-cell memory model of the BMC; see DESIGN C16); more goroutines; Go memory model weaker than sequential consistency'},
+           bounds={'goroutines': '1-2 waiters + 1 updater (+ canceller)', 'unwind': 2, 'channels_made_per_goroutine': 2,
+                   'connectedness': 'one waiter (current = {p1: Disconnected}) against AssociatePeer(g, p2) resp. UpdateState(p1, Connected); group and first peer set up sequentially; waiter loop cut after 2 iterations (unwinding assertion checked)',
+                   'outside': 'tinder peersCache; maps mutated concurrently (the BMC memory model makes scalar and channel-pointer cells visible; map contents are only read on the checked paths apart from the association itself); more goroutines; memory models weaker than sequential consistency'},
            assumptions=['sequential consistency', 'a select whose channel is closed or has a value can always complete'],
            trusted=['go/ssa lowering', 'wesym interpreter (open mode) + BMC composer', 'z3 5.1.0'])
 
